@@ -163,7 +163,8 @@ def run_harness(prop, tier, seed, extra_args=(), timeout=3000):
     return rc, out, meta, out_dir
 
 
-BAD_RE = re.compile(r"bad\s*=\s*(.*?)\s*:\s*list", re.S)
+BAD_RE = re.compile(r"\bbad\s*=\s*(.*?)\s*:\s*list", re.S)
+BADP_RE = re.compile(r"\bbad_prop\s*=\s*(.*?)\s*:\s*list", re.S)
 
 
 def eval_case_file(path, timeout=1500):
@@ -176,7 +177,12 @@ def eval_case_file(path, timeout=1500):
         return False, None, out
     body = m.group(1)
     idx = [int(x) for x in re.findall(r"\d+", body)]
-    return True, idx, out
+    mp = BADP_RE.search(out)
+    if mp:
+        # property-level failures are tagged with a negative sign convention: returned as a second list
+        pidx = [int(x) for x in re.findall(r"\d+", mp.group(1))]
+        return True, (idx, pidx), out
+    return True, (idx, None), out
 
 
 def eval_cases(out_dir, names, jobs=16):
